@@ -510,8 +510,7 @@ def load(path):
 
 
 def run_cases(ck, cases, label):
-    run_json_rows(ck, cases, label)
-    run_logfmt_rows(ck, cases, label)
+    all_rows_cases = cases
     cases = [c for c in cases if c.get("mode", "") != "json"]
     chain_cases = [c for c in cases if c.get("mode", "") != "fp"]
     fp_cases = [c for c in cases if c.get("mode", "") == "fp"]
@@ -554,8 +553,18 @@ def run_cases(ck, cases, label):
     small = [c for c in runnable if sum(len(b) for b in c["in"]) < 500]
     shards = [("big%d" % k, [c]) for k, c in enumerate(big)] + [(k // shard, small[k:k + shard]) for k in range(0, len(small), shard)]
     from concurrent.futures import ThreadPoolExecutor
-    with ThreadPoolExecutor(max_workers=4) as ex:
-        results = list(ex.map(lambda a: eval_chain_cases(ck, "C09_%s_%s" % (label, a[0]), a[1]), shards))
+    planned = [c for c in chain_cases if c["out"]["err"] != "parse" and c.get("pipes") is not None]
+    plan_res = fp_res = None
+    with ThreadPoolExecutor(max_workers=5) as ex:
+        futs = [ex.submit(eval_chain_cases, ck, "C09_%s_%s" % (label, a[0]), a[1]) for a in shards]
+        # while the shards are evaluated: the json / logfmt rows, the plan and the fingerprint cases (this thread)
+        run_json_rows(ck, all_rows_cases, label)
+        run_logfmt_rows(ck, all_rows_cases, label)
+        if planned:
+            plan_res = eval_plan_cases(ck, "C09_%s_plan" % label, planned)
+        if fp_cases:
+            fp_res = eval_fp_cases(ck, "C09_%s_fp" % label, fp_cases)
+        results = [f.result() for f in futs]
     for m, v, out in results:
         if m is None:
             ck.obligation("%s: cases evaluated inside Coq" % label, False, out[-2500:])
@@ -592,9 +601,8 @@ def run_cases(ck, cases, label):
         c = min((byid[i] for i in mism), key=size_of)
         ck.violation({"property": PID, "kind": "model/implementation disagree; the reference semantics still accepts every output",
                       "query": c["query"], "case": slim(c), "broken": "correspondence InternalEngine.run_chain vs internal_planner"}, no_input=True)
-    planned = [c for c in chain_cases if c["out"]["err"] != "parse" and c.get("pipes") is not None]
     if planned:
-        m, out = eval_plan_cases(ck, "C09_%s_plan" % label, planned)
+        m, out = plan_res
         if m is None:
             ck.obligation("%s: plan cases evaluated inside Coq" % label, False, out[-2000:])
         else:
@@ -605,7 +613,7 @@ def run_cases(ck, cases, label):
                               "query": c["query"], "pipes": c.get("pipes"), "bp": c["bp"], "internal": internal_pipe_kinds(c),
                               "replay": "harness inteng --cases <file with {\"query\": ...} as one JSON line>"})
     if fp_cases:
-        m, out = eval_fp_cases(ck, "C09_%s_fp" % label, fp_cases)
+        m, out = fp_res
         if m is None:
             ck.obligation("%s: fingerprint cases evaluated inside Coq" % label, False, out[-2000:])
         else:
